@@ -196,6 +196,26 @@ func init() {
 			"http://[::1]:80/", "http://[2001:db8::1]/", "http://10.0.0.1/", "http://10.0.0.1:8080/", "ldap://ldap.example.com/dc=x", "//relative", "/path/only", "http://", "http:///nohost",
 			"http://exa_mple.com/", "http://-bad.com/", "HTTP://EXAMPLE.COM/", "http://example.com./", "http://localhost/", "http://a/", "tel:+1-555-0100", "file:///etc/passwd", "http://ex ample.com/",
 			"http://example.com:port/", "http://xn--caf-dma.com/", "http://*.example.com/", "data:text/plain,hi", "http://@example.com/", "http://user@/"}
+		// every combination of the five components of a URI (scheme, authority, path, query, fragment) present or absent
+		for _, sc := range []string{"", "http:", "mailto:", "news:", "x-y.z+1:"} {
+			for _, au := range []string{"", "//example.com", "//", "//user@"} {
+				for _, pa := range []string{"", "/", "/p/q", "opaque"} {
+					if au != "" && pa == "opaque" {
+						continue
+					}
+					for _, qu := range []string{"", "?", "?to=joe@example.com", "?a=1&b=2"} {
+						for _, fr := range []string{"", "#", "#frag"} {
+							if tier() != "thorough" && qu == "?a=1&b=2" && fr == "#" {
+								continue
+							}
+							if sc+au+pa+qu+fr != "" { // the lints skip an empty URI; the model is stated per non-empty URI
+								uris = append(uris, sc+au+pa+qu+fr)
+							}
+						}
+					}
+				}
+			}
+		}
 		for _, scheme := range []string{"http", "https", "ldap"} {
 			for _, ui := range []string{"", "user@", "user:pw@"} {
 				for _, host := range []string{"example.com", "www.example.com", "localhost", "intranet", "a", "10.0.0.1", "[::1]", "[2001:db8::1]", "exa_mple.com", "-bad.com", "*.example.com", "", "xn--caf-dma.com", "example.com.", "EXAMPLE.COM"} {
